@@ -451,40 +451,131 @@ def check_stage_wiring(ctx, r):
 
 
 # ------------------------------------------------------------------------ C13.4
+def _flag_test(t):
+    """(is the remove-stack flag, polarity) for a test expression."""
+    pol = True
+    while isinstance(t, ast.UnaryOp) and isinstance(t.op, ast.Not):
+        pol = not pol
+        t = t.operand
+    if isinstance(t, ast.Attribute) and t.attr == "jaxtyping_remove_typechecker_stack":
+        return True, pol
+    return False, pol
+
+
+def _cause_kind(expr, flag: bool, env, exc_name):
+    """What `raise X from <expr>` chains to when the flag has value `flag`:
+    'None' | 'exc' | 'implicit' | '?'.  `env`: kinds of the locals assigned so far."""
+    if expr is None:
+        return "implicit"
+    if isinstance(expr, ast.Constant) and expr.value is None:
+        return "None"
+    if isinstance(expr, ast.Name) and expr.id in exc_name:
+        return "exc"
+    if isinstance(expr, ast.IfExp):
+        is_flag, pol = _flag_test(expr.test)
+        if is_flag:
+            return _cause_kind(expr.body if flag == pol else expr.orelse, flag, env, exc_name)
+        a = _cause_kind(expr.body, flag, env, exc_name)
+        b = _cause_kind(expr.orelse, flag, env, exc_name)
+        return a if a == b else "?"
+    if isinstance(expr, ast.Name):
+        return env.get(expr.id, "?")
+    return "?"
+
+
+def _merge_env(a, b):
+    return {k: (a[k] if a.get(k) == b.get(k) else "?") for k in set(a) | set(b)}
+
+
+def _raises_under_flag(stmts, flag: bool, env, exc_name, out):
+    """Abstractly run a statement list with the flag fixed: track, for the locals assigned from
+    None / the caught exception / a flag-conditional of them, which of the two they hold, and record
+    (raise statement, kind of its cause) for every raise reachable under this flag value.
+    Returns the environment after the list."""
+    for st in stmts:
+        if isinstance(st, ast.Raise):
+            if st.exc is not None:
+                out.append((st, _cause_kind(st.cause, flag, env, exc_name)))
+            return env
+        if isinstance(st, (ast.Assign, ast.AnnAssign)):
+            tgts = st.targets if isinstance(st, ast.Assign) else [st.target]
+            if st.value is not None:
+                for t in tgts:
+                    if isinstance(t, ast.Name):
+                        env = dict(env)
+                        env[t.id] = _cause_kind(st.value, flag, env, exc_name)
+        elif isinstance(st, ast.If):
+            is_flag, pol = _flag_test(st.test)
+            if is_flag:
+                env = _raises_under_flag(st.body if flag == pol else st.orelse, flag, env, exc_name, out)
+            else:
+                e1 = _raises_under_flag(st.body, flag, dict(env), exc_name, out)
+                e2 = _raises_under_flag(st.orelse, flag, dict(env), exc_name, out)
+                env = _merge_env(e1, e2)
+        elif isinstance(st, (ast.For, ast.While)):
+            e1 = _raises_under_flag(st.body, flag, dict(env), exc_name, out)
+            env = _merge_env(env, e1)
+            env = _raises_under_flag(st.orelse, flag, env, exc_name, out)
+        elif isinstance(st, ast.With):
+            env = _raises_under_flag(st.body, flag, env, exc_name, out)
+        elif isinstance(st, ast.Try):
+            e1 = _raises_under_flag(st.body, flag, dict(env), exc_name, out)
+            mid = _merge_env(env, e1)
+            ends = [_raises_under_flag(st.orelse, flag, dict(e1), exc_name, out)]
+            for hh in st.handlers:
+                ends.append(_raises_under_flag(hh.body, flag, dict(mid), exc_name, out))
+            env = ends[0]
+            for e2 in ends[1:]:
+                env = _merge_env(env, e2)
+            env = _raises_under_flag(st.finalbody, flag, env, exc_name, out)
+    return env
+
+
 def check_cause_polarity(ctx, r):
+    """For each handler of a checker call that raises the jaxtyping error: with the flag on every
+    reachable raise chains `from None`, with it off `from <the caught exception>`.  Decided per
+    raise site by following `if flag` statements, `x if flag else y` expressions and locals."""
     m = ctx.model
+    jt = m.func("_decorator.jaxtyped")
+    cv = checker_vars(m, jt)
+    h = ExcHierarchy(m)
     n = 0
     for w, impl in new_style_wrappers(m, r):
-        for st in ast.walk(impl.node):
-            if not isinstance(st, ast.If):
-                continue
-            t = st.test
-            pol = True
-            while isinstance(t, ast.UnaryOp) and isinstance(t.op, ast.Not):
-                pol = not pol
-                t = t.operand
-            if not (isinstance(t, ast.Attribute) and t.attr == "jaxtyping_remove_typechecker_stack"):
-                continue
-            n += 1
-            tside, fside = (st.body, st.orelse) if pol else (st.orelse, st.body)
-
-            def cause(stmts):
-                rs = [x for s in stmts for x in ast.walk(s) if isinstance(x, ast.Raise)]
-                if len(rs) != 1:
-                    return "?"
-                c = rs[0].cause
-                if c is None:
-                    return "implicit"
-                if isinstance(c, ast.Constant) and c.value is None:
-                    return "None"
-                return "exc"
-
-            ct, cf = cause(tside), cause(fside)
-            if ct == "None" and cf == "exc":
-                ctx.ok("C13.4", impl.qualname, "remove_typechecker_stack: true -> `from None`, false -> `from e`")
-            else:
-                ctx.bad("C13.4", impl, st, f"cause polarity: with jaxtyping_remove_typechecker_stack on the error is raised `from {ct}`, with it off `from {cf}` "
-                        "(must be None / the typechecker's exception)")
+        for t, nm in _check_tries(m, impl, set(cv)):
+            for hd in t.handlers:
+                if h.handler_names(hd.type) == ["AnnotationError"]:
+                    continue
+                mentions = any(isinstance(x, ast.Attribute) and x.attr == "jaxtyping_remove_typechecker_stack" for x in ast.walk(hd))
+                per_flag = {}
+                # the caught exception: the name bound by this handler or by a handler nested in it
+                # (the argument-blame helper re-raises, and that exception is the one chained)
+                exc_names = {x.name for x in ast.walk(hd) if isinstance(x, ast.ExceptHandler) and x.name}
+                for flag in (True, False):
+                    kinds = []
+                    _raises_under_flag(hd.body, flag, {}, exc_names, kinds)
+                    per_flag[flag] = kinds
+                if not per_flag[True] and not per_flag[False]:
+                    continue  # C13.3 reports handlers that raise nothing
+                n += 1
+                if not mentions:
+                    st0 = (per_flag[True] or per_flag[False])[0][0]
+                    ctx.bad("C13.4", impl, st0, "the handler of a failed check never consults jaxtyping_remove_typechecker_stack: "
+                            f"the error is raised `from {per_flag[True][0][1] if per_flag[True] else '?'}` whatever the flag says")
+                    continue
+                unknown = [st for fl in per_flag.values() for st, k in fl if k == "?"]
+                if unknown:
+                    raise AnalysisError(f"C13.4: cannot tell what `{norm(unknown[0])[:80]}` chains to as a function of jaxtyping_remove_typechecker_stack")
+                bad = False
+                for st, k in per_flag[True]:
+                    if k != "None":
+                        ctx.bad("C13.4", impl, st, f"cause polarity: with jaxtyping_remove_typechecker_stack on the error is raised `from {k}` (must be `from None`)")
+                        bad = True
+                for st, k in per_flag[False]:
+                    if k != "exc":
+                        ctx.bad("C13.4", impl, st, f"cause polarity: with jaxtyping_remove_typechecker_stack off the error is raised `from {k}` (must be the typechecker's exception)")
+                        bad = True
+                if not bad:
+                    ctx.ok("C13.4", impl.qualname, "remove_typechecker_stack: true -> `from None`, false -> `from e` on every raise of the handler")
     ctx.counters["cause_switch_sites"] = n
     ctx.floor("C13.4", "cause_switch_sites", 2)
 
